@@ -81,21 +81,83 @@ def parseImpItem (h round : Nat) (tok : String) : Option Sig :=
 def parseSet (s : String) : Option (List Nat) :=
   if s == "-" then some [] else (s.splitOn ".").mapM (fun x => x.toNat?)
 
-def step (s : List (List Nat)) (toks : List String) : List (List Nat) × String :=
+/-- driver state: the chain of the import ops, the validator snapshots (values) and the current
+    validator state of the snapshot-history ops -/
+structure DState where
+  chain : List (List Nat) := []
+  snaps : List (List Nat) := []
+  cur : Option (List Nat) := none
+
+def showSet (l : List Nat) : String :=
+  if l.isEmpty then "-" else ".".intercalate (l.map toString)
+
+def showIdx (vals : List Nat) (k : Nat) : String :=
+  match vals.findIdx? (· == k) with
+  | some i => toString i
+  | none => "-1"
+
+def step (s : DState) (toks : List String) : DState × String :=
   match toks with
-  | ["reset"] => ([], "ok")
+  | ["reset"] => ({}, "ok")
+  -- validator snapshot histories
+  | ["vnew", ks] =>
+    match parseSet ks with
+    | some l => if l.Nodup then ({ s with snaps := s.snaps ++ [l] }, s!"snap {s.snaps.length} {showSet l}") else (s, "bad-op")
+    | none => (s, "bad-op")
+  | ["vwarm", j] =>
+    match j.toNat? with
+    | some j => match s.snaps[j]? with
+      | some l => (s, " ".intercalate ((List.range 8).map (showIdx l)))
+      | none => (s, "bad-op")
+    | none => (s, "bad-op")
+  | ["vder", j] =>
+    match j.toNat? with
+    | some j => match s.snaps[j]? with
+      | some l => ({ s with cur := some l }, "ok")
+      | none => (s, "bad-op")
+    | none => (s, "bad-op")
+  | ["vrep", o, n] =>
+    match o.toNat?, n.toNat?, s.cur with
+    | some o, some n, some l => match vsReplace l o n with
+      | some l' => ({ s with cur := some l' }, "ok")
+      | none => (s, "err")
+    | _, _, _ => (s, "bad-op")
+  | ["vset", i, n] =>
+    match i.toNat?, n.toNat?, s.cur with
+    | some i, some n, some l => match vsSetAt l i n with
+      | some l' => ({ s with cur := some l' }, "ok")
+      | none => (s, "err")
+    | _, _, _ => (s, "bad-op")
+  | ["vadd", n] =>
+    match n.toNat?, s.cur with
+    | some n, some l => ({ s with cur := some (vsAdd l n) }, "ok")
+    | _, _ => (s, "bad-op")
+  | ["vrem", n] =>
+    match n.toNat?, s.cur with
+    | some n, some l => ({ s with cur := some (vsRemove l n).1 }, if (vsRemove l n).2 then "1" else "0")
+    | _, _ => (s, "bad-op")
+  | ["vsnap"] =>
+    match s.cur with
+    | some l => ({ s with snaps := s.snaps ++ [l] }, s!"snap {s.snaps.length} {showSet l}")
+    | none => (s, "bad-op")
+  | "vver" :: j :: keys =>
+    match j.toNat?, keys.mapM (fun k => k.toNat?) with
+    | some j, some keys => match s.snaps[j]? with
+      | some l => (s, showRes (verifyAgainst l keys))
+      | none => (s, "bad-op")
+    | _, _ => (s, "bad-op")
   | ["chain", a, b, c, d] =>
     match parseSet a, parseSet b, parseSet c, parseSet d with
     | some a, some b, some c, some d =>
       -- the change requested in block k shows in NextValidators(block k+1): heights 0..3 have A, A, B, C
-      if a.isEmpty ∨ b.isEmpty ∨ c.isEmpty ∨ d.isEmpty then (s, "bad-op") else ([a, a, b, c], "ok")
+      if a.isEmpty ∨ b.isEmpty ∨ c.isEmpty ∨ d.isEmpty then (s, "bad-op") else ({ s with chain := [a, a, b, c] }, "ok")
     | _, _, _, _ => (s, "bad-op")
   | "imp" :: round :: items =>
     match round.toNat?, items.mapM (parseImpItem 3 ((round.toNat?).getD 0)) with
     | some round, some sigs =>
-      if s.length ≠ 4 then (s, "bad-op") else
+      if s.chain.length ≠ 4 then (s, "bad-op") else
       -- candidate block 4 on parent 3: NextValidators of heights 0..3 are the four sets
-      match verifyProofForLast (fun k => s.getD k []) id 3 round sigs with
+      match verifyProofForLast (fun k => s.chain.getD k []) id 3 round sigs with
       | Res.ok _ => (s, "accept")
       | Res.okNil => (s, "accept")
       | Res.reject => (s, "reject:cert")
@@ -130,4 +192,4 @@ def step (s : List (List Nat)) (toks : List String) : List (List Nat) × String 
   | _ => (s, "bad-op")
 
 end Goloop.Driver.C05
-def main : IO Unit := Goloop.Proto.run Goloop.Driver.C05.step []
+def main : IO Unit := Goloop.Proto.run Goloop.Driver.C05.step {}
